@@ -253,3 +253,67 @@ func runE8(c *core.Ctx) {
 		c.OK(cn, fd.Pos(), "setErr(err) after Decoder.Decode only under a SyntaxError type test (%d site(s))", sites)
 	}
 }
+
+// E9: the blank skipper does not touch the buffer. StreamDecoder.scan() is called at the top
+// level (between values) and by readMore() on every freshly read chunk while a value is still
+// incomplete. In the second situation the blanks it steps over may lie inside a string of the
+// pending value, so scan may move the cursor but must not drop bytes from buf or count them as
+// consumed.
+
+func init() {
+	register(&core.Rule{ID: "E9", Min: 1, Arm64: true,
+		Doc: "StreamDecoder.scan, which readMore calls in the middle of an incomplete value, assigns no field of its receiver other than scanp (in particular not buf and not scanned): truncating or recycling the buffer there makes a Read that returns only blanks vanish from inside a string.",
+		Run: runE9})
+}
+
+func runE9(c *core.Ctx) {
+	p := c.Prog
+	pk := p.Pkg("internal/decoder/api")
+	scan := core.FuncDecl(pk, "StreamDecoder", "scan")
+	rm := core.FuncDecl(pk, "StreamDecoder", "readMore")
+	cn := "internal/decoder/api.(StreamDecoder).scan/cursor-only"
+	if scan == nil || scan.Body == nil || rm == nil || rm.Body == nil {
+		c.Undecided(cn, token.NoPos, "scan or readMore not found")
+		return
+	}
+	c.Analysed(core.FuncName(pk, scan))
+	midValue := false
+	ast.Inspect(rm.Body, func(n ast.Node) bool {
+		if call, ok := n.(*ast.CallExpr); ok {
+			if se, ok := call.Fun.(*ast.SelectorExpr); ok && se.Sel.Name == "scan" {
+				midValue = true
+			}
+		}
+		return true
+	})
+	if !midValue {
+		c.OK(cn, scan.Pos(), "readMore no longer calls scan: the skipper is only used between values")
+		return
+	}
+	recv := recvObj(p, scan)
+	var bad []string
+	var badPos token.Pos
+	ast.Inspect(scan.Body, func(n ast.Node) bool {
+		var lhs []ast.Expr
+		switch x := n.(type) {
+		case *ast.AssignStmt:
+			lhs = x.Lhs
+		case *ast.IncDecStmt:
+			lhs = []ast.Expr{x.X}
+		}
+		for _, l := range lhs {
+			if f, ok := selOn(p, l, recv); ok && f != "scanp" {
+				bad = append(bad, f)
+				if badPos == token.NoPos {
+					badPos = l.Pos()
+				}
+			}
+		}
+		return true
+	})
+	if len(bad) > 0 {
+		c.Bad(cn, badPos, "scan writes %s of the decoder although readMore calls it on every chunk of an incomplete value: blanks that belong to a string of that value are dropped or counted as consumed when they arrive in a Read of their own (\"a  b\" delivered as `\"a`, ` `, ` b\"` decodes as \"a b\")", strings.Join(bad, ", "))
+	} else {
+		c.OK(cn, scan.Pos(), "scan only moves scanp")
+	}
+}
